@@ -12,7 +12,14 @@ def run(R, ctx):
         nprog=(400, 6000), corpus="exec_c01", extra_lines=families.arith_grid("string"),
         what="string and generic key commands (SET with every option combination, GET, MSET, MGET, SETNX, SETEX, APPEND, STRLEN, GETRANGE, "
              "SETRANGE, INCR family, DEL, EXISTS, TYPE, RENAME, KEYS incl. escape-only patterns, PING, EXPIRE, PERSIST, TTL); the int64 boundary grid: every pair (stored value, operand) of 11 edge values through INCRBY/DECRBY, each edge value through INCR/DECR")
+    families.alias_probe(R, ctx, "string")
+    families.alias_aim(R, ctx, own="string", counters=True)   # only when fact F7 is broken
 
 
 def replay(R, payload):
+    if payload.get("engine") == "alias":
+        return families.alias_replay(R, payload)
+    if payload.get("engine") == "conc":
+        from .. import concsuite
+        return concsuite.replay_conc(R, payload)
     return core.generic_replay(R, payload)
